@@ -13,7 +13,26 @@ from pyvc.heapworld import HOOK_ID, Clause, Family, Outcome, Spec, iterable, ita
 x, y, a, b = Consts("x y a b", R)
 i, j = Int("i"), Int("j")
 
-hgt = Function("hgt", R, I)        # spec function HEIGHT over the entry view (see height())
+hgt = Function("hgt", R, I)        # spec function HEIGHT over the view (see height())
+from pyvc.heap import IA
+ANC = Function("ANC", R, IA)       # spec function: ANC(x)[j] = the ancestor of x at depth j (0 <= j < depth(x))
+
+
+def HGT_AX(S):
+    """defining (recursive) characterisation of HEIGHT over the view of S; such a function exists in every finite
+    forest (lemma L6, Lean) - assumed as a precondition by the functions that compute heights"""
+    return [
+        Clause("hgt/nonneg", ForAll([x], Implies(isn(x), hgt(x) >= 0))),
+        Clause("hgt/leaf", ForAll([x], Implies(And(isn(x), S.cl(x) == 0), hgt(x) == 0))),
+        Clause("hgt/above-children", ForAll([x, i], Implies(And(isn(x), 0 <= i, i < S.cl(x)), hgt(x) >= hgt(S.ca(x, i)) + 1))),
+        Clause("hgt/attained", ForAll([x], Implies(And(isn(x), S.cl(x) > 0),
+                                                   Exists([i], And(0 <= i, i < S.cl(x), hgt(x) == hgt(S.ca(x, i)) + 1))))),
+    ]
+
+
+def ANC_AX(S):
+    return [Clause("anc/def", ForAll([x, j], Implies(And(isn(x), 0 <= j, j < S.d(x)),
+                                                     And(isn(ANC(x)[j]), S.A(ANC(x)[j], x), S.d(ANC(x)[j]) == j))))]
 
 
 def seqv(v):
@@ -206,6 +225,72 @@ def build(fam):
     fam.add(Spec(fam, "iter_path_reverse", "method", [("self", "ref")], base_req, [
         Outcome("return", "return", ipr_post, res="iterseq", mods=()),
     ], loops={0: LoopSpec(ipr_inv, mods=())}, generator=True, props={"C04"}))
+
+    # ------------------------------------------------------------------ navigation attributes (C04)
+    def path_post(c, S1, r):
+        S0, n, s = c.S0, c.self, seqv(r)
+        return [
+            Clause("length-is-depth+1", s.n == S0.d(n) + 1, {"C04"}),
+            Clause("element-j-is-the-ancestor-or-self-at-depth-j",
+                   ForAll([j], Implies(in_range(j, s.n), And(isn(s.a[j]), S0.A(s.a[j], n), S0.d(s.a[j]) == j))), {"C04"}),
+            Clause("starts-at-a-root", S0.par(s.a[0]) == NONE, {"C04"}),
+            Clause("each-is-the-parent-of-the-next", ForAll([j], Implies(in_range(j, s.n - 1), S0.par(s.a[j + 1]) == s.a[j])), {"C04"}),
+            Clause("ends-at-self", s.a[s.n - 1] == n, {"C04"}),
+        ]
+    for nm in ("_path", "path"):
+        fam.add(Spec(fam, nm, "getter", [("self", "ref")], base_req, [
+            Outcome("return", "return", path_post, res="aseq", mods=())], props={"C04"}))
+
+    def anc_req(c):
+        return base_req(c) + ANC_AX(c.S0)
+
+    def anc_post(c, S1, r):
+        S0, n, s = c.S0, c.self, seqv(r)
+        return [
+            Clause("length-is-depth", s.n == S0.d(n), {"C04"}),
+            Clause("is-path-without-the-node",
+                   ForAll([j], Implies(in_range(j, s.n), And(isn(s.a[j]), S0.A(s.a[j], n), s.a[j] != n, S0.d(s.a[j]) == j))), {"C04"}),
+        ]
+    fam.add(Spec(fam, "ancestors", "getter", [("self", "ref")], anc_req, [
+        Outcome("return", "return", anc_post, res="aseq", mods=(), value=lambda c: ASeq(c.S0.d(c.self), ANC(c.self)))],
+        props={"C04"}))
+
+    def root_inv(L):
+        S0, n, node = L.fn.S0, L.fn.self, L.t("node")
+        return [("node-is-ancestor-or-self", And(isn(node), S0.A(node, n)))]
+    fam.add(Spec(fam, "root", "getter", [("self", "ref")], base_req, [
+        Outcome("return", "return", lambda c, S1, r: [
+            Clause("is-the-parentless-ancestor-or-self (= path[0])", And(isn(r.t), c.S0.A(r.t, c.self), c.S0.par(r.t) == NONE,
+                                                                         c.S0.d(r.t) == 0), {"C04"})],
+                res="ref", mods=())], loops={0: LoopSpec(root_inv, mods=())}, props={"C04"}))
+
+    def sib_post(c, S1, r):
+        S0, n, s = c.S0, c.self, seqv(r)
+        q, k0 = S0.par(n), S0.idx(n)
+        return [
+            Clause("root-has-no-siblings", Implies(q == NONE, s.n == 0), {"C04"}),
+            Clause("one-less-than-the-parents-children", Implies(q != NONE, s.n == S0.cl(q) - 1), {"C04"}),
+            Clause("the-parents-other-children-in-order",
+                   Implies(q != NONE, ForAll([i], Implies(in_range(i, s.n), s.a[i] == If(i < k0, S0.ca(q, i), S0.ca(q, i + 1))))), {"C04"}),
+        ] + unchanged(S1, S0, {"C04"}) + WFc(S1) + [Clause("alloc-mono", alloc_mono(S1, S0))]
+    fam.add(Spec(fam, "siblings", "getter", [("self", "ref")], base_req, [
+        Outcome("return", "return", sib_post, res="aseq", mods=("hasC", "C", "Llen", "alloc"))], props={"C04"}))
+
+    def viewpure_post(c, S1):
+        return unchanged(S1, c.S0, {"C04"}) + WFc(S1) + [Clause("alloc-mono", alloc_mono(S1, c.S0))]
+    fam.add(Spec(fam, "is_leaf", "getter", [("self", "ref")], base_req, [
+        Outcome("return", "return", lambda c, S1, r: [Clause("no-children", r.t == (c.S0.cl(c.self) == 0), {"C04"})] + viewpure_post(c, S1),
+                res="bool", mods=("hasC", "C", "Llen", "alloc"), value=lambda c: c.S0.cl(c.self) == 0)], props={"C04"}))
+    fam.add(Spec(fam, "is_root", "getter", [("self", "ref")], base_req, [
+        Outcome("return", "return", lambda c, S1, r: [Clause("no-parent", r.t == (c.S0.par(c.self) == NONE), {"C04"})],
+                res="bool", mods=(), value=lambda c: c.S0.par(c.self) == NONE)], props={"C04"}))
+    fam.add(Spec(fam, "height", "getter", [("self", "ref")], lambda c: base_req(c) + HGT_AX(c.S0), [
+        Outcome("return", "return", lambda c, S1, r: [Clause("is-HEIGHT", r.t == hgt(c.self), {"C04"})] + viewpure_post(c, S1),
+                res="int", mods=("hasC", "C", "Llen", "alloc"), value=lambda c: hgt(c.self))], props={"C04"}))
+    fam.add(Spec(fam, "depth", "getter", [("self", "ref")], base_req, [
+        Outcome("return", "return", lambda c, S1, r: [Clause("is-len-of-ancestors", r.t == c.S0.d(c.self), {"C04"})],
+                res="int", mods=(), value=lambda c: c.S0.d(c.self))],
+        loops={0: LoopSpec(lambda L: [], mods=())}, props={"C04"}))
 
     # ------------------------------------------------------------------ __check_loop
     def loop_cond(c):
